@@ -4,6 +4,7 @@ import (
 	"fmt"
 	"regexp"
 	"runtime"
+	"runtime/debug"
 	"strings"
 	"sync"
 )
@@ -137,3 +138,6 @@ func Trunc(s string, n int) string {
 	}
 	return s[:n] + "..."
 }
+
+// Stack returns the current goroutine's stack (used inside deferred recover handlers)
+func Stack() []byte { return debug.Stack() }
